@@ -221,6 +221,7 @@ def run_case(case):
                     if not same:
                         r.violation('C12:conditions-modified', f'{tag}: the caller\'s conditions object was modified',
                                     case=case)
+                        cond = snap.copy() if container == 'series' else dict(snap)
                     if list(out.columns) != cols or len(out) != rows:
                         r.violation('C12:schema', f'{tag}: output has {len(out)} rows, columns {list(out.columns)}', case=case)
                         continue
@@ -284,7 +285,12 @@ def run_case(case):
                     # determinism: a second identical call with the same seed
                     if sd is not None:
                         gm.set_random_state(sd)
-                        out2 = gm.sample(rows, conditions=cond)
+                        try:
+                            out2 = gm.sample(rows, conditions=cond)
+                        except Exception as e:
+                            r.violation(f'C12:second-call-raises:{type(e).__name__}', f'{tag}: the same call with the same '
+                                        f'conditions object raised {type(e).__name__}: {e} the second time', case=case)
+                            continue
                         r.tr()
                         if not out.equals(out2):
                             r.violation('C12:not-reproducible', f'{tag}: two calls with the same seed differ', case=case)
